@@ -33,6 +33,7 @@ def dispatch (stream : String) (c : S) : List String :=
   | "nexttoken" => nexttokenCase c
   | "chansched" => chanschedCase c
   | "listener" => listenerCase c
+  | "hostile" => ["UNMODELLED"]   -- no model of hosts that change the surroundings mid-evaluation: judged by the no-panic predicate alone
   | _ => ["UNKNOWN-STREAM"]
 
 partial def loop (h : IO.FS.Stream) (out : IO.FS.Stream) : IO Unit := do
